@@ -618,18 +618,37 @@ pub fn run(tier: Tier) -> i32 {
     let workers = std::thread::available_parallelism().map(|n| n.get()).unwrap_or(8);
     let counts = sandbox::run_cases(&cases, workers, Duration::from_secs(5), &on_hard);
     // a case that timed out in the loaded pool is re-run alone with 20 s before it is called a hang
-    let mut confirmed_hangs = 0u64;
-    for i in timeouts.lock().unwrap().iter() {
-        match sandbox::run_alone(&cases[*i], Duration::from_secs(20)) {
-            None => {}
-            Some(h) => {
-                if h == Hard::Timeout {
-                    confirmed_hangs += 1;
-                }
-                record(*i, &h);
+    // (the first 32 of them, four at a time: when more time out the verdict no longer depends on
+    // the rest, which are counted and left)
+    let confirmed = AtomicU64::new(0);
+    let to_confirm: Vec<usize> = {
+        let mut t = timeouts.lock().unwrap().clone();
+        t.sort();
+        t.truncate(32);
+        t
+    };
+    {
+        let next = std::sync::atomic::AtomicUsize::new(0);
+        std::thread::scope(|sc| {
+            for _ in 0..4 {
+                sc.spawn(|| loop {
+                    let k = next.fetch_add(1, Ordering::Relaxed);
+                    if k >= to_confirm.len() {
+                        break;
+                    }
+                    let i = to_confirm[k];
+                    if let Some(h) = sandbox::run_alone(&cases[i], Duration::from_secs(20)) {
+                        if h == Hard::Timeout {
+                            confirmed.fetch_add(1, Ordering::Relaxed);
+                        }
+                        record(i, &h);
+                    }
+                });
             }
-        }
+        });
     }
+    let confirmed_hangs = confirmed.load(Ordering::Relaxed);
+    let timeouts_not_rechecked = timeouts.lock().unwrap().len() - to_confirm.len();
     // the size probes once more through the command-line tool as `cargo build` produces it (dev
     // profile: the largest stack frames; main thread: the 8 MiB a user gets), 1 GiB, 30 s of CPU
     if std::env::var("VERIF_VERBOSE").is_ok() {
@@ -731,7 +750,7 @@ pub fn run(tier: Tier) -> i32 {
         "evaluations": cases.len(),
         "distinct_nontrivial": distinct_texts,
         "rule": "every single-line program head x operand list of length 0..2 (thorough 0..3, third operand from a reduced dictionary) over a 54-text dictionary of valid, boundary and hostile operands x 10 context prefixes (segments, reduced and Tiny1x devices, cyclic .equ, self- and mutually-calling macros, open .if 0 / .macro, definitions), heads = every mnemonic and every directive in both '.' and '#' spelling + unknown names; geometric size ladders (nesting depth of parentheses/unary/function chains, left/right-leaning operator chains, operand-list, line, label, string and number lengths, line counts, nested conditionals, .equ chains, macro and include nesting, .org/.byte magnitudes 2^8..2^63 +-1 and negative); every single token of every corpus program deleted, duplicated and replaced by every dictionary entry. Each case runs in a sandboxed worker. distinct_nontrivial = distinct source texts",
-        "exhaustive": true,
+        "exhaustive": counts.skipped_after_cap == 0 && timeouts_not_rechecked == 0,
         "single_line_programs": n_single,
         "device_row_times_memory_programs": n_dev_mem,
         "size_probes": n_probe,
@@ -739,9 +758,9 @@ pub fn run(tier: Tier) -> i32 {
         "corpus_token_mutations": n_mut,
         "corpus_byte_mutations": n_bytemut,
         "size_probes_through_the_dev_profile_cli": n_cli.load(Ordering::Relaxed),
-        "worker_outcomes": {"ok": counts.ok, "err": counts.err, "hard_failures": counts.hard, "worker_restarts": counts.worker_restarts, "timeouts_rechecked": timeouts.lock().unwrap().len(), "confirmed_hangs": confirmed_hangs},
+        "worker_outcomes": {"ok": counts.ok, "err": counts.err, "hard_failures": counts.hard, "worker_restarts": counts.worker_restarts, "timeouts_rechecked": to_confirm.len(), "timeouts_not_rechecked_beyond_the_first_32": timeouts_not_rechecked, "confirmed_hangs": confirmed_hangs, "cases_not_run_after_the_cap_on_hard_failures": counts.skipped_after_cap},
         "hard_failure_kinds": *hard_seen.lock().unwrap(),
-        "caps_hit": [],
+        "caps_hit": if counts.skipped_after_cap > 0 || timeouts_not_rechecked > 0 { json!([format!("stopped after {} hard failures: {} cases not run, {} timeouts not re-checked alone (violations are reported; the run is not exhaustive)", counts.hard, counts.skipped_after_cap, timeouts_not_rechecked)]) } else { json!([]) },
         "trusted_base": ["sandbox worker pool (RLIMIT_AS, explicit 8 MiB stack, watchdog)", "classification of a dead worker by exit signal and stderr tail"],
     }));
     drop(scratch);
